@@ -57,7 +57,7 @@ Definition empty_lib (first_oid : N) : lib := mklib [] [] [] first_oid.
 (* ------------------------------------------------------------------ the eight views *)
 Definition v_blocks (l : lib) : list oblock := blocks l.
 Definition v_failed (l : lib) : list oblock := filter is_failed_ob (blocks l).
-Definition v_strings (l : lib) : list oblock := map snd (strs l).           (* list(self._strings_by_key.values()) *)
+Definition v_strings (l : lib) : list oblock := filter is_string_ob (blocks l).   (* [b for b in self._blocks if isinstance(b, String)] *)
 Definition v_strings_dict (l : lib) : list (str * oblock) := strs l.
 Definition v_entries (l : lib) : list oblock := filter is_entry_ob (blocks l).
 Definition v_entries_dict (l : lib) : list (str * oblock) := ents l.         (* a copy *)
